@@ -13,16 +13,31 @@ Decided structurally:
                              layer's path classes
   R3 completeness            delete_layer removes DIR, TOML and the SBOM file of every format
 Not decided: TOCTOU races between the type test and the operation; kernel semantics.
+
+The obligations are stated on effects and path classes, not on the recursive spelling (C11_helpers):
+  * "the remover" is every function that applies CHMOD / LIST to a path it received, itself or through the functions
+    it hands that path to; a *descent* is any call that hands such a function an entry of the directory being emptied
+    (the recursive call, or opening a child for an explicit work list) — R1b / R2 recursion-arg are checked on those;
+  * an iterative remover keeps the directories being emptied in a work list: the invariant "every element is inside
+    the tree of the argument" is proved by induction over the pushes and reads of the list then stand for a
+    representative element (MAY facts: R1b, R2); R3 is derived on the plain values from "the list is empty at the
+    success site, every pop is followed by a checked removal" and from alternatives of a helper's outcome that agree;
+  * listings opened by a private helper and paths taken out of values built by private helpers are read through
+    their normal forms (inline_deep / mk_unwrap).
 """
-from .lib.effects import Effects, MUTATING
+from .lib.effects import Effects, MUTATING, guards_of, vocab_lookup
 from .lib.guards import conditions, conditions_ctx
 from .lib.paths import sbom_formats_covered, LayerPaths, cls_str, strip, _listed_from
 from .lib.value import vstr, walk
+from . import C11_helpers as H
+from .C11_helpers import FOLLOWING       # CHMOD, LIST: operate on the link target
 
-FOLLOWING = {'CHMOD', 'LIST'}            # operate on the link target
 NOFOLLOW_TRUE = {'std::fs::FileType::is_dir': True, 'std::fs::Metadata::is_dir': True,
                  'std::fs::FileType::is_symlink': False, 'std::fs::Metadata::is_symlink': False,
                  'std::path::Path::is_symlink': False}
+NOFOLLOW_NOT_DIR = {'std::fs::FileType::is_dir': False, 'std::fs::Metadata::is_dir': False,
+                    'std::fs::FileType::is_symlink': True, 'std::fs::Metadata::is_symlink': True,
+                    'std::path::Path::is_symlink': True}
 
 
 def _nofollow_root(v, path_value):
@@ -58,28 +73,72 @@ def established(fn, bb, path_value, slicer):
     return None
 
 
+def _nofollow_why(value, outcome, path_value):
+    if value[0] != 'call':
+        return None
+    want = NOFOLLOW_TRUE.get(value[1])
+    if want is None or outcome != want:
+        return None
+    root = _nofollow_root(value, path_value)
+    if root:
+        return '%s == %s on %s' % (value[1].split('::')[-1], want, root)
+    return None
+
+
+def established_eff(E, e, path_value):
+    """the same fact from the guards at every level of the call chain that leads to effect e (a test made by a caller
+    of the helper that contains the operation), everything in the entry function's terms"""
+    for cd, views, _subj in guards_of(E, e):
+        if cd.kind != 'bool':
+            continue
+        for value, outcome in views:
+            w = _nofollow_why(value, outcome, path_value)
+            if w:
+                return w
+    return None
+
+
+def unlink_guarded(prog, sl, E, e):
+    """REMOVE_FILE effect e on a listed entry rests on a no-follow type test that says "not a real directory": the
+    else-branch of the entry's own is_dir(), or the path's own symlink_metadata saying it is a symlink"""
+    local = sl.operand(e.call.fn, e.call.args[0])
+
+    def says_not_dir(value, outcome, *paths):
+        return value[0] == 'call' and NOFOLLOW_NOT_DIR.get(value[1]) is outcome and any(_nofollow_root(value, p) for p in paths)
+    for c in conditions_ctx(prog, e.call.fn, e.call.bb, sl):
+        if c.kind == 'bool' and any(says_not_dir(v, oc, e.path, local) for v, oc in c.views()):
+            return True
+    for cd, views, _subj in guards_of(E, e):
+        if cd.kind == 'bool' and any(says_not_dir(v, oc, e.path) for v, oc in views):
+            return True
+    return False
+
+
 def run(ctx, rep):
-    prog, sl = ctx.prog, ctx.slicer
+    prog, sl0 = ctx.prog, ctx.slicer
     rep.rule('R1', 'symlink-following operations on a received path are preceded by a no-follow type test (in the function or at every call site)')
     rep.rule('R1b', 'recursion into children only under the entry\'s own no-follow is_dir(); other entries are unlinked')
     rep.rule('R2', 'mutating effects of the remover stay on its argument / listed entries; delete_layer stays inside the layer')
     rep.rule('R3', 'delete_layer removes DIR, TOML and every SBOM format file')
     rep.not_decided = ['TOCTOU races between the type test and the operation', 'kernel symlink semantics']
     from . import layer_roles
-    ROLES = layer_roles.roles(prog, sl)
+    ROLES = layer_roles.roles(prog, sl0)
     LayerPaths.sbom_path_fn = ROLES['SBOM_PATH'] or LayerPaths.sbom_path_fn
-    E = Effects(prog, sl)
     dl = prog.fn(ROLES['DELETE'] or 'libcnb::layer::shared::delete_layer')
     reach = prog.reach([dl])
+    lib = [f for _, f in sorted(reach.items()) if f.crate == 'libcnb']
+    # an iterative remover keeps the directories being emptied in a work list instead of call frames: reads of a list
+    # whose invariant "every element is inside the tree of the argument" is proved get a representative element (sl);
+    # MUST facts are derived on the plain values (EM: drained lists, alternatives that agree)
+    wls, sl = H.abstract_worklists(prog, sl0, lib)
+    E = Effects(prog, sl)
+    EM = H.EffectsX(prog, sl0, wls) if wls else E
     callers = prog.callers()
     n_follow = 0
-    for path, f in sorted(reach.items()):
-        if f.crate != 'libcnb':
-            continue
+    for f in lib:
         rep.analysed(f)
         direct = []
         for c in f.calls:
-            from .lib.effects import vocab_lookup
             ve = vocab_lookup(c)
             if ve and ve[0] in FOLLOWING:
                 direct.append((c, ve[0], sl.operand(f, c.args[ve[1]])))
@@ -114,47 +173,55 @@ def run(ctx, rep):
                                  {'callee': f.path, 'operation': c.name, 'argument': vstr(av)})
     rep.floor('R1', 'following_ops', n_follow)
 
-    # ---- R1b / R2 on the recursive remover --------------------------------------------------------
+    # ---- R1b / R2 on the remover: every function that applies CHMOD / LIST to a path it received -------------------
+    # (the recursive remover itself; with the traversal split up, also the helper that opens a directory and the
+    # function that drives the traversal).  A *descent* is a call that hands such a function an entry of the directory
+    # being emptied — the recursive call, or opening a child for the work list.
     rm = prog.fn(ROLES['REMOVER'] or 'libcnb::util::remove_dir_recursively')
-    rep.analysed(rm)
-    is_dirparam = lambda v: v[0] == 'param' and v[1] == rm.path and v[2] == 0
-    LP = LayerPaths(lambda v: False, lambda v: False, (is_dirparam,))
-    for c in rm.calls:
-        if c.name == rm.path:
-            av = sl.operand(rm, c.args[0])
-            k = LP.classify(av)
-            rep.check(k is not None and k[0] == 'CHILD', 'R2', 'remover/recursion-arg', c.where(), 'recurses into an entry listed from its own argument',
-                      'recursion target is not an entry of the directory being removed: ' + vstr(av)[:120])
-            w = established(rm, c.bb, av, sl)
-            rep.check(bool(w), 'R1b', 'remover/recursion-guard', c.where(), 'recursion guarded by ' + str(w),
-                      'recursion into a child is not guarded by the entry\'s own no-follow is_dir(): a symlinked directory would be followed')
-    for e in E.expand(rm, 'may'):
-        if e.kind in MUTATING and (e.call.fn.path == rm.path or e.call.fn.path.startswith(rm.path + '::{closure')):
+    F = H.followers(prog, sl, [f for f in lib if f.path != dl.path and not f.path.startswith(dl.path + '::{closure')])
+    F.setdefault(rm.path, 0)
+    ED = Effects(prog, sl, vocab={p: ('DESCEND', j) for p, j in F.items()})
+    for gp, j in sorted(F.items()):
+        g = prog.fns[gp]
+        rep.analysed(g)
+        LP = H.param_paths(sl, g, j)
+        for e in ED.expand(g, 'may'):
+            if e.kind != 'DESCEND':
+                continue
             k = LP.classify(e.path)
-            subj = 'remover/%s' % e.call.name
-            ok = k is not None and (k == ('DIR',) or k[0] == 'CHILD')
-            rep.check(ok, 'R2', subj, e.where(), '%s on %s' % (e.kind, 'the argument' if k == ('DIR',) else 'a listed entry'),
-                      '%s on a path that is neither the argument nor one of its entries: %s' % (e.kind, vstr(e.path)[:120]))
-            if e.kind == 'REMOVE_FILE' and ok and k[0] == 'CHILD':
-                conds = [c for c in conditions_ctx(prog, e.call.fn, e.call.bb, sl) if c.kind == 'bool' and c.value[0] == 'call'
-                         and c.value[1] == 'std::fs::FileType::is_dir' and c.outcome is False
-                         and (_nofollow_root(c.value, e.path) or _nofollow_root(c.value, sl.operand(e.call.fn, e.call.args[0])))]
-                rep.check(bool(conds), 'R1b', 'remover/unlink-guard', e.where(), 'non-directories (incl. symlinks) are unlinked, not followed',
-                          'remove_file on an entry is not the else-branch of the no-follow is_dir test')
-            if e.kind in ('REMOVE_TREE',):
-                pass
+            recursive = e.call.name == g.path
+            ok = k is not None and (k[0] == 'CHILD' or (k == ('DIR',) and not recursive))
+            rep.check(ok, 'R2', 'remover/recursion-arg', e.where(),
+                      'recurses into an entry listed from its own argument' if ok and k[0] == 'CHILD' else 'hands its own argument on',
+                      'recursion target is not an entry of the directory being removed: ' + vstr(e.path)[:120])
+            if ok and k[0] == 'CHILD':
+                av = sl.operand(e.call.fn, e.call.args[F[e.call.name]]) if e.call.name in F and F[e.call.name] < len(e.call.args) else e.path
+                w = established(e.call.fn, e.call.bb, av, sl) or established_eff(ED, e, e.path)
+                rep.check(bool(w), 'R1b', 'remover/recursion-guard', e.where(), 'recursion guarded by ' + str(w),
+                          'recursion into a child is not guarded by the entry\'s own no-follow is_dir(): a symlinked directory would be followed')
+        for e in E.expand(g, 'may'):
+            if e.kind in MUTATING:
+                k = LP.classify(e.path)
+                subj = 'remover/%s' % e.call.name
+                ok = k is not None and (k == ('DIR',) or k[0] == 'CHILD')
+                rep.check(ok, 'R2', subj, e.where(), '%s on %s' % (e.kind, 'the argument' if k == ('DIR',) else 'a listed entry'),
+                          '%s on a path that is neither the argument nor one of its entries: %s' % (e.kind, vstr(e.path)[:120]))
+                if e.kind == 'REMOVE_FILE' and ok and k[0] == 'CHILD':
+                    rep.check(unlink_guarded(prog, sl, E, e), 'R1b', 'remover/unlink-guard', e.where(),
+                              'non-directories (incl. symlinks) are unlinked, not followed',
+                              'remove_file on an entry is not the else-branch of the no-follow is_dir test')
 
     # ---- R2 / R3 on delete_layer ------------------------------------------------------------------
     is_ld = lambda v: v[0] == 'param' and v[1] == dl.path and v[2] == 0
     is_ln = lambda v: v[0] == 'param' and v[1] == dl.path and v[2] == 1
-    LD = LayerPaths(is_ld, is_ln)
+    LD = H.TreePaths(sl, is_ld, is_ln)
     for e in E.expand(dl, 'may'):
         if e.kind in MUTATING:
             k = LD.classify(e.path)
             subj = 'delete_layer/%s/%s@%s' % (e.call.fn.path.split('::')[-1], e.call.name, cls_str(k))
             rep.check(LD.inside_layer(k), 'R2', subj, e.where(), '%s on %s' % (e.kind, cls_str(k)),
                       '%s on a path outside <layers>/<name>, <name>.toml and the SBOM files: %s' % (e.kind, vstr(e.path)[:140]))
-    must = E.expand(dl, 'must')
+    must = EM.expand(dl, 'must')
     kinds = [(e.kind, LD.classify(e.path), e.forall) for e in must]
     has_dir = any(k in ('REMOVE_DIR', 'REMOVE_TREE', 'REMOVE_FILE') and c == ('DIR',) for k, c, _ in kinds)
     has_toml = any(k == 'REMOVE_FILE' and c == ('TOML',) for k, c, _ in kinds)
